@@ -31,6 +31,40 @@ def twice(f):
 
 G = 5
 
+@guppy.struct
+class Cn:
+    c: int
+
+    @guppy
+    def __pos__(self: "Cn") -> "Cn":
+        result("pos", self.c)
+        return Cn(self.c + 100)
+
+    @guppy
+    def __neg__(self: "Cn") -> "Cn":
+        result("neg", self.c)
+        return Cn(0 - self.c - 1)
+
+    @guppy
+    def __invert__(self: "Cn") -> "Cn":
+        result("inv", self.c)
+        return Cn(self.c * 2)
+
+    @guppy
+    def __add__(self: "Cn", other: int) -> "Cn":
+        result("add", self.c + other)
+        return Cn(self.c + other * 2)
+
+    @guppy
+    def __sub__(self: "Cn", other: "Cn") -> int:
+        result("sub", other.c)
+        return self.c - other.c + 1
+
+    @guppy
+    def bump(self: "Cn", d: int) -> int:
+        result("bump", d)
+        return self.c + d
+
 @guppy
 def h1(v: int, q: bool) -> int:
     result("h1", v)
@@ -144,6 +178,11 @@ PLANTS = {
     "unary_plus_float": ["f = +(x / 2)", "result(\"f\", f)"], "unary_minus_float": ["f = -(x / 2)", "result(\"f\", f)"],
     "unary_minus_int": ["x = -x"], "unary_minus_const_expr": ["x = -(2 + x)"], "unary_plus_cmp": ["result(\"u\", +(x > 1))"],
     "not_bool": ["q = not p", "result(\"q\", q)"],
+    # user-defined operators and methods of a struct must be called (once, with Python's operand order)
+    "dunder_pos": ["o = +Cn(x)", "x = o.c"], "dunder_neg": ["o = -Cn(x)", "x = o.c"], "dunder_invert": ["o = ~Cn(x)", "x = o.c"],
+    "dunder_pos_twice": ["o = +(+Cn(x))", "x = o.c"], "dunder_add": ["o = Cn(x) + 3", "x = o.c"],
+    "dunder_sub": ["x = Cn(x) - Cn(a + 1)"], "dunder_mixed": ["o = -(Cn(x) + 2)", "x = (+o).c"],
+    "method_call": ["x = Cn(x).bump(4)"], "method_call_var": ["o = Cn(x)", "x = o.bump(o.c) + o.bump(1)"],
     # CPython raises TypeError on every input: there is no semantics a statically typed language could give them
     "unary_plus_tuple": ["t = (x, 1)", "u = +t", "x = u[0]"], "unary_minus_tuple": ["t = (x, 1)", "u = -t", "x = u[0]"],
     "invert_float": ["f = ~(x / 2)", "result(\"f\", f)"], "unary_plus_array": ["xs = array(1, 2)", "ys = +xs", "x = ys[0]"],
